@@ -37,7 +37,7 @@ CONSTANTS Sel,             \* "stateless" | "stateful" | "cv"
           MaxTicks, MaxSendErrs, MaxResults,   \* budgets of the environment
           BuCap,           \* capacity of batchUpdate (= MaxRetries in the code; larger in trace validation, where a
                            \* blocked UpdateBatch caller acts as one more slot)
-          FixF22,          \* TRUE: model fixes/F22 (a SendRetry is skipped once the summary holds a non-retryable error)
+          FixF34,          \* TRUE: model fixes/F34 (a SendRetry is skipped once the summary holds a non-retryable error)
           KindSet,         \* result kinds the environment may produce (subset of Kinds)
           GenHist
 
@@ -106,7 +106,7 @@ SMBatchUpdate ==
        /\ CASE o.res = "success" -> UNCHANGED <<pc, out, after, vals, obs>>
             [] o.res = "stop"    -> /\ vals' = vals \cup {[st |-> "new", b |-> 0, e |-> "err"]}
                                     /\ UNCHANGED <<pc, out, after, obs>>
-            [] o.res = "retry"   -> IF FixF22 /\ (sum.nr \/ sum.pp)
+            [] o.res = "retry"   -> IF FixF34 /\ (sum.nr \/ sum.pp)
                                     THEN /\ vals' = vals \cup {[st |-> "new", b |-> 0, e |-> "err"]}
                                          /\ UNCHANGED <<pc, out, after, obs>>
                                     ELSE /\ GoEmit(Instr(1), "select") /\ Decided(o) /\ UNCHANGED vals
